@@ -39,7 +39,29 @@ def exec_stmt(self: Interp, s, st: State):
     m = getattr(self, "x_" + type(s).__name__, None)
     if m is None:
         raise Unsupported(f"statement {type(s).__name__}")
-    return m(s, st)
+    scs = []
+    fr = self.frame
+    if fr is not None and fr.fn is not None and not isinstance(s, (ast.For, ast.While, ast.If, ast.With, ast.Try)):
+        key = frame_key(self)
+        if key in self.reg["stmts"]:
+            text = ast.unparse(s).replace(" ", "").replace("\n", "")
+            scs = [sc for sc in self.reg["stmts"][key] if sc.match.replace(" ", "") == text]
+    if not scs:
+        return m(s, st)
+    before = st.fork()
+    outs = m(s, st)
+    for o in outs:
+        if o.kind != "normal":
+            continue
+        saved = fr.before if hasattr(fr, "before") else None
+        fr.before = before
+        try:
+            for sc in scs:
+                for i, e in enumerate(sc.ensures):
+                    self.oblige(o.state, self.contract_truth(e, o.state), "A", f"{sc.label}#{i}", s)
+        finally:
+            fr.before = saved
+    return outs
 
 
 def _normal(st):
@@ -96,6 +118,22 @@ def x_AnnAssign(self, s, st):
 
 def x_AugAssign(self, s, st):
     tgt = s.target
+    if isinstance(tgt, ast.Subscript) and not isinstance(tgt.slice, (ast.Slice, ast.Tuple)):
+        base = self.eval(tgt.value, st)
+        if isinstance(base, Ref) and base.what == "arr" and st.heap[base.rid].kind == "ndarray":
+            key = self.eval(tgt.slice, st)
+            K = lib._arr(self, st, key)
+            if K is not None and K.etype == "bool":
+                # a[mask] op= v  ->  a[t] := mask[t] ? a[t] op v : a[t]   (in place)
+                rhs = self.eval(s.value, st)
+                if lib._arr(self, st, rhs) is not None:
+                    raise Unsupported("masked augmented assignment with an array operand")
+                cell = st.heap[base.rid]
+                old = cell.elem
+                st.heap[base.rid] = Arr(cell.shape, lambda *idx: lib._ite_val(
+                    K.elem(*idx[:K.ndim]), self.scalar_binop(s.op, old(*idx), rhs, st, s), old(*idx)),
+                    kind="ndarray", etype=cell.etype)
+                return _normal(st)
     load = ast.copy_location(_as_load(tgt), tgt)
     cur = self.eval(load, st)
     rhs = self.eval(s.value, st)
@@ -173,8 +211,11 @@ def assign(self: Interp, target, val, st: State):
             from .engine import _sid
             kz = _sid(k)
             oh, og = d.has, d.get
+            nsize = None
+            if d.size is not None:
+                nsize = to_z3(d.size) + zite(oh(k), 0, 1)
             st.heap[base.rid] = DictV(lambda q: zor(_sid(q) == kz, oh(q)),
-                                      lambda q: _dget(self, kz, val, og, q), d.vtype)
+                                      lambda q: _dget(self, kz, val, og, q), d.vtype, nsize)
             return
         if isinstance(base, Ref) and base.what == "cdict":
             k = self.eval(target.slice, st)
